@@ -262,6 +262,12 @@ func (s *Sim) bootSender(root string, inc int) *SendNode {
 	}()
 	go func() {
 		<-n.done
+		if n.isDead() {
+			// a crashed sender winding down: when (and whether) it gets here
+			// depends on races inside the dead process; it must not wake the
+			// scheduler out of a time step
+			return
+		}
 		n.exited.Store(true)
 		s.mu.Lock()
 		n.exitStep = s.step
